@@ -3127,6 +3127,15 @@ def _from_end(element, size: int):
     """Resolve positions counted from the end of a mode of the given size."""
     if isinstance(element, slice):
         start, stop = element.start, element.stop
+        if element.step is not None and element.step < 0:
+            # Downward: an underflowing stop means down to position 0 inclusive
+            if start is not None and start < 0:
+                start = start + size
+                if start < 0:
+                    return slice(0, 0)
+            if stop is not None and stop < 0:
+                stop = stop + size if stop + size >= 0 else None
+            return slice(start, stop, element.step)
         if start is not None and start < 0:
             start = max(start + size, 0)
         if stop is not None and stop < 0:
